@@ -33,6 +33,7 @@ package didnuts
 //   other-did-changed:<query>       an event aimed at one DID changed raw store answers of another DID
 //   legit-rejected:<op>             a legitimate creation/update (canonical form, see mustAccept) was rejected
 //   accepted-not-effective:<what>   an accepted document is not what Resolve returns afterwards
+//                                   (:deactivated also: an accepted deactivation merged with a concurrent branch lost its flag)
 //
 // "Unchanged" is decided in two steps: a handful of direct questions about the offered pair is asked before and after every
 // offer (latest, by hash, by source transaction, by time, key by id, key by source transaction); in addition the complete
@@ -50,6 +51,7 @@ import (
 	"crypto"
 	"crypto/ecdh"
 	"crypto/ecdsa"
+	"crypto/ed25519"
 	"crypto/elliptic"
 	"crypto/sha256"
 	"encoding/base64"
@@ -241,6 +243,7 @@ var c09DocClasses = []string{"vm-no-fragment", "vm-foreign-prefix", "vm-dup-id",
 	"rel-embedded-dup-same", "rel-embedded-dup-other-key", "rel-embedded-dup-other-controller", "rel-embedded-dup-other-type",
 	"vm-near-miss-id", "vm-near-miss-id", "vm-near-miss-id", "svc-near-miss-id", "svc-near-miss-id", "svc-near-miss-id",
 	"vm-frag-alias", "vm-frag-alias", "vm-frag-alias", "vm-frag-alias", "vm-frag-alias", "vm-frag-alias",
+	"vm-non-jwk", "vm-non-jwk", "vm-non-jwk", "rel-embedded-non-jwk", "rel-embedded-non-jwk", "rel-embedded-non-jwk",
 	"core-no-context", "core-vm-no-type", "core-vm-no-controller", "core-svc-no-type", "core-svc-no-endpoint"}
 
 var c09Ops = []string{"create", "create", "create", "addkey", "addkey", "addkey", "rmkey", "rotate", "rotate", "rotate", "rotate",
@@ -751,6 +754,69 @@ func c09FragAlias(t, kind string, sel uint32) string {
 	return t + "="
 }
 
+// c09NonJWK: verification methods whose key is not expressed as publicKeyJwk (the other representations DID-core and go-did
+// know: publicKeyMultibase, publicKeyBase58, or no key material at all), of the usual non-JWK types, of an unknown type and
+// of type JsonWebKey2020. The method rule "key id = key thumbprint" holds for every verification method of a did:nuts
+// document, whatever its type: an id chosen by the publisher, or the thumbprint of some other key, must be refused. Only
+// when the fragment is the RFC 7638 thumbprint of the very key the method carries (Ed25519 as OKP JWK) nothing is demanded.
+var c09NonJWKFormats = []string{"ed2018-multibase", "ed2018-base58", "ed2020-multibase", "secp256k1-2019-base58", "unknown-type-multibase",
+	"ed2020-no-key", "jwk2020-base58", "jwk2020-no-key"}
+var c09NonJWKIDs = []string{"chosen", "other-thumb", "own-okp-thumb", "chosen", "chosen-short", "other-thumb", "own-okp-thumb", "listed-frag-suffixed"}
+
+// c09EdKey: deterministic Ed25519 public key n and its RFC 7638 thumbprint (base64url, no padding).
+func c09EdKey(n int) (pub []byte, thumb string) {
+	seed := sha256.Sum256([]byte(fmt.Sprintf("verif-C09-ed25519-%d", n)))
+	pub = []byte(ed25519.NewKeyFromSeed(seed[:]).Public().(ed25519.PublicKey))
+	t := sha256.Sum256([]byte(`{"crv":"Ed25519","kty":"OKP","x":"` + base64.RawURLEncoding.EncodeToString(pub) + `"}`))
+	return pub, base64.RawURLEncoding.EncodeToString(t[:])
+}
+
+// c09NonJWKMethod builds the method; kind = format + "/" + id kind as really used (own-okp-thumb needs an Ed25519 key).
+func c09NonJWKMethod(id string, sel uint32, otherFrag, listedFrag string) (m map[string]any, kind string) {
+	format := c09NonJWKFormats[int(sel)%len(c09NonJWKFormats)]
+	idKind := c09NonJWKIDs[int(sel/8)%len(c09NonJWKIDs)]
+	pub, okp := c09EdKey(int(sel))
+	m = map[string]any{"controller": id}
+	hasEd := false
+	switch format {
+	case "ed2018-multibase":
+		m["type"], m["publicKeyMultibase"], hasEd = "Ed25519VerificationKey2018", "z"+base58.Encode(pub), true
+	case "ed2018-base58":
+		m["type"], m["publicKeyBase58"], hasEd = "Ed25519VerificationKey2018", base58.Encode(pub), true
+	case "ed2020-multibase":
+		m["type"], m["publicKeyMultibase"], hasEd = "Ed25519VerificationKey2020", "z"+base58.Encode(append([]byte{0xed, 0x01}, pub...)), true
+	case "secp256k1-2019-base58":
+		m["type"], m["publicKeyBase58"] = "EcdsaSecp256k1VerificationKey2019", base58.Encode(append([]byte{0x02}, pub...))
+	case "unknown-type-multibase":
+		m["type"], m["publicKeyMultibase"] = "X25519KeyAgreementKey2019", "z"+base58.Encode(pub)
+	case "ed2020-no-key":
+		m["type"] = "Ed25519VerificationKey2020"
+	case "jwk2020-base58":
+		m["type"], m["publicKeyBase58"] = "JsonWebKey2020", base58.Encode(pub)
+	case "jwk2020-no-key":
+		m["type"] = "JsonWebKey2020"
+	}
+	if idKind == "own-okp-thumb" && !hasEd {
+		idKind = "other-thumb"
+	}
+	if idKind == "listed-frag-suffixed" && listedFrag == "" {
+		idKind = "chosen"
+	}
+	switch idKind {
+	case "chosen":
+		m["id"] = id + "#key-" + fmt.Sprint(1+sel%3)
+	case "chosen-short":
+		m["id"] = id + "#" + string(rune('a'+sel%26))
+	case "other-thumb":
+		m["id"] = id + "#" + otherFrag // a well-formed thumbprint, of another key
+	case "own-okp-thumb":
+		m["id"] = id + "#" + okp
+	case "listed-frag-suffixed":
+		m["id"] = id + "#" + listedFrag + "-2"
+	}
+	return m, format + "/" + idKind
+}
+
 // twistKind is set by twistDoc for classes that have several kinds (refines the class name and decides the verdict).
 func (w *c09World) twistDoc(doc map[string]any, id, other, class string, sel uint32) bool {
 	w.twistKind = ""
@@ -887,6 +953,23 @@ func (w *c09World) twistDoc(doc map[string]any, id, other, class string, sel uin
 		} else {
 			other2 := c09Rels[(int(sel)+1+int(sel/8)%(len(c09Rels)-1))%len(c09Rels)].name
 			doc[other2] = append(c09List(doc, other2), second)
+		}
+	case "vm-non-jwk", "rel-embedded-non-jwk":
+		listedFrag := ""
+		if l := c09List(doc, "verificationMethod"); len(l) > 0 {
+			lid, _ := l[int(sel/2)%len(l)].(map[string]any)["id"].(string)
+			listedFrag = lid[strings.Index(lid, "#")+1:]
+		}
+		var m map[string]any
+		m, w.twistKind = c09NonJWKMethod(id, sel, keys[k1].frag, listedFrag)
+		if class == "vm-non-jwk" {
+			addVM(m)
+			if k1%2 == 0 { // (all bits of sel are taken by format and id kind)
+				doc[relName] = append(c09List(doc, relName), m["id"])
+				w.twistKind += "/referenced"
+			}
+		} else {
+			addRel(m)
 		}
 	case "rel-embedded-valid":
 		// not a violation: a well-formed verification method that is embedded instead of referenced (no verdict demanded;
@@ -1076,6 +1159,25 @@ func c09WellFormed(doc map[string]any, id string) (rule string, detail string) {
 			yb, e2 := base64.RawURLEncoding.DecodeString(strings.TrimRight(ys, "="))
 			if kty == "EC" && crv == "P-256" && e1 == nil && e2 == nil && len(xb) == 32 && len(yb) == 32 {
 				t := c09Thumb(crv, base64.RawURLEncoding.EncodeToString(xb), base64.RawURLEncoding.EncodeToString(yb))
+				if frag != base64.RawURLEncoding.EncodeToString(t[:]) {
+					return where + "-thumbprint", vid
+				}
+			}
+		}
+		if _, isJWK := m["publicKeyJwk"]; !isJWK {
+			// the key in another representation: when it can be read as an Ed25519 key, the fragment must be its thumbprint
+			ty, _ := m["type"].(string)
+			var raw []byte
+			if mb, _ := m["publicKeyMultibase"].(string); strings.HasPrefix(mb, "z") {
+				raw, _ = base58.Decode(mb[1:])
+				if len(raw) == 34 && raw[0] == 0xed && raw[1] == 0x01 {
+					raw = raw[2:]
+				}
+			} else if b58, _ := m["publicKeyBase58"].(string); b58 != "" {
+				raw, _ = base58.Decode(b58)
+			}
+			if strings.HasPrefix(ty, "Ed25519VerificationKey") && len(raw) == 32 {
+				t := sha256.Sum256([]byte(`{"crv":"Ed25519","kty":"OKP","x":"` + base64.RawURLEncoding.EncodeToString(raw) + `"}`))
 				if frag != base64.RawURLEncoding.EncodeToString(t[:]) {
 					return where + "-thumbprint", vid
 				}
@@ -1921,6 +2023,12 @@ func c09DocSig(class string) string {
 	case "vm-near-miss-id:frag2":
 		return "accepted-invalid-doc:vm-thumb-mismatch" // the fragment is not the thumbprint
 	}
+	if strings.HasPrefix(class, "vm-non-jwk:") || strings.HasPrefix(class, "rel-embedded-non-jwk:") {
+		if strings.Contains(class, "/own-okp-thumb") {
+			return "" // the fragment is the thumbprint of the key the method carries: nothing demanded
+		}
+		return "accepted-invalid-doc:vm-thumb-mismatch:non-jwk" // listed or embedded: one rule, one root cause
+	}
 	if strings.HasPrefix(class, "vm-frag-alias:") {
 		return "accepted-invalid-doc:vm-thumb-mismatch:b64-alias" // the fragment is not exactly the thumbprint
 	}
@@ -2399,7 +2507,7 @@ func (w *c09World) update(i int, ev c09Event) {
 }
 
 // fork is the one bounded exception to "histories are conflict-free": a self-controlled document A gets two concurrent
-// successors of its latest version a1 - a deactivation a2 and, signed later, an update a3 that adds a key Kx - which arrive
+// successors of its latest version a1 - a deactivation a2 and, signed later, an update a3 that adds a key Kx (or rotates the signing key to Kx, or only adds a service) - which arrive
 // in either order and are merged by the store. A stays deactivated ("once deactivated is always deactivated") although the
 // merged document lists Kx and the old key. Both branches succeed a1 and are signed by a controller of a1, so the record
 // authorises both (their acceptance is only demanded for the one that arrives first, which is an ordinary update).
@@ -2437,7 +2545,22 @@ func (w *c09World) fork(i int, ev c09Event) {
 	ka := capKeys[int(ev.S)%len(capKeys)]
 	kx := w.freshKey()
 	specAdd := a1.spec.clone()
-	specAdd.Keys = append(specAdd.Keys, c09Use{K: kx, Rel: c09Cap | c09Asr})
+	// what the concurrent branch does to a1: it adds a key, replaces the signing key by a new one, or only touches a service
+	// (then the merged document lists the old key alone and Kx was never listed anywhere)
+	branchKind := []string{"add-key", "add-key", "rotate", "svc"}[int(ev.A/4)%4]
+	switch branchKind {
+	case "add-key":
+		specAdd.Keys = append(specAdd.Keys, c09Use{K: kx, Rel: c09Cap | c09Asr})
+	case "rotate":
+		for j := range specAdd.Keys {
+			if specAdd.Keys[j].K == ka {
+				specAdd.Keys[j].K = kx
+			}
+		}
+	case "svc":
+		specAdd.Svcs = append(specAdd.Svcs, c09Svc{Frag: fmt.Sprintf("svc-fork-%d", i), Type: fmt.Sprintf("type-fork-%d", i), EP: "https://example.com/fork"})
+	}
+	x.Class("fork:concurrent-branch:" + branchKind)
 	prevs := []hash.SHA256Hash{a1.ref}
 	if ev.Head && !w.head.Equals(a1.ref) {
 		prevs = append(prevs, w.head)
@@ -2480,10 +2603,18 @@ func (w *c09World) fork(i int, ev c09Event) {
 			}
 		}
 	}
-	if err != nil || !meta.Deactivated || both != 2 {
+	if err != nil || both != 2 {
 		x.Class("fork:not-merged-as-expected")
 		w.stop = true
 		return
+	}
+	if !meta.Deactivated {
+		// Both branches are source transactions of the latest version, one of them is an accepted deactivation: the merged
+		// version succeeds a deactivated version. The record goes on (A authorises nothing), the offers below show what the
+		// lost flag is worth to a holder of A's keys.
+		x.Class("fork:merged-version-not-flagged-deactivated")
+		x.Violate("accepted-not-effective:deactivated", "event %d fork (%s, first to arrive: %s): the deactivation %s of %s was accepted and merged with the concurrent %s branch %s, but metadata.Deactivated=false for the merged version",
+			i, branchKind, first.class, oDeact.ref, a.id, branchKind, oAdd.ref)
 	}
 	a.dead = true
 	a.forkRefs = []hash.SHA256Hash{oDeact.ref}
